@@ -98,6 +98,34 @@ struct Driver {
 
 int driverMain(int argc, char** argv, Driver& d);
 
+// SimClock: answers the library's clock()/time()/rand() (symbols interposed from the executable, core.cpp).
+struct SimClock {
+    enum Mode { Advance, Coarse, Stall, Minus1, Back };
+    Mode mode = Advance;
+    long now = 1000, first = 1000, delta = 1, coarseEvery = 7, backAt = 0, backBy = 0;
+    uint64_t calls = 0, timeCalls = 0, randCalls = 0;
+    long fixedTime = 1700000000;
+    void reset(Mode m = Advance, long d = 1, long every = 7, long bAt = 0, long bBy = 0) { mode = m; now = first = 1000; delta = d; coarseEvery = every ? every : 1; backAt = bAt; backBy = bBy; calls = timeCalls = randCalls = 0; }
+    void configure(const std::string& m, long d = 1, long every = 7, long bAt = 0, long bBy = 0) {
+        Mode mm = Advance; if (m == "coarse") mm = Coarse; else if (m == "stall") mm = Stall; else if (m == "minus1") mm = Minus1; else if (m == "back") mm = Back;
+        reset(mm, d, every, bAt, bBy);
+    }
+    long tick() {
+        ++calls;
+        switch (mode) {
+        case Advance: now += delta; break;
+        case Coarse: if (calls % (uint64_t)coarseEvery == 0) now += delta; break;
+        case Stall: break;
+        case Minus1: return -1;
+        case Back: now += delta; if ((long)calls == backAt) now -= backBy; break;
+        }
+        return now;
+    }
+    long covered() const { return now - first; }
+};
+extern SimClock g_clock;
+extern bool g_traceMode;   // --trace given: drivers may record more detail (allocation sites etc.)
+
 // UBSan report capture (sim/sanhooks.cpp): reports since last reset, as "kind@file:line"
 void ubsanReset();
 std::vector<std::string> ubsanTake();
